@@ -20,9 +20,6 @@ from .core import AnalysisError, norm_stmt
 from .dataflow import ReachingDefs
 from .poly import Normaliser, Poly, Rat, Unsupported
 
-ARRAY_CTORS = {"zeros", "ones", "empty", "full", "zeros_like", "full_like", "ones_like", "arange", "array", "where",
-               "copy", "unique", "flatten", "cos", "abs", "sqrt", "diff", "astype", "round"}
-REDUCTIONS = {"sum", "median", "nanmedian", "mean", "any", "all", "max", "min", "size"}
 
 # ---- frozen tables (one reason per entry) ---------------------------------------------------
 PIVOT = {
@@ -75,58 +72,7 @@ class Division:
         return self.node.lineno
 
 
-def _funcname(f) -> str:
-    return ast.unparse(f).split(".")[-1]
-
-
-def array_names(fn: ast.FunctionDef, array_params: Set[str]) -> Set[str]:
-    """Names that (may) hold arrays: fixpoint over assignments (AST approximation of E7's facts)."""
-    arr = set(array_params)
-
-    def is_arr(e) -> bool:
-        if isinstance(e, ast.Name):
-            return e.id in arr
-        if isinstance(e, ast.Call):
-            f = _funcname(e.func)
-            if f in REDUCTIONS or f in ("len", "int", "float", "float64", "int64", "log", "pow", "round") and not (
-                    f == "round" and isinstance(e.func, ast.Attribute)):
-                if f == "round" and isinstance(e.func, ast.Attribute):
-                    return any(is_arr(a) for a in e.args[:1])
-                return False
-            if f in ARRAY_CTORS:
-                if f in ("abs", "sqrt", "cos", "round"):
-                    return any(is_arr(a) for a in e.args[:1])
-                return True
-            if isinstance(e.func, ast.Attribute) and f in ("copy", "flatten", "astype"):
-                return is_arr(e.func.value)
-            return False
-        if isinstance(e, ast.BinOp):
-            return is_arr(e.left) or is_arr(e.right)
-        if isinstance(e, ast.UnaryOp):
-            return is_arr(e.operand)
-        if isinstance(e, ast.Compare):
-            return is_arr(e.left) or any(is_arr(c) for c in e.comparators)
-        if isinstance(e, ast.Subscript):
-            if not is_arr(e.value):
-                return False
-            sl = e.slice
-            parts = sl.elts if isinstance(sl, ast.Tuple) else [sl]
-            return any(isinstance(p, ast.Slice) or is_arr(p) for p in parts)
-        if isinstance(e, ast.IfExp):
-            return is_arr(e.body) or is_arr(e.orelse)
-        return False
-
-    changed = True
-    while changed:
-        changed = False
-        for st in ast.walk(fn):
-            if isinstance(st, ast.Assign) and len(st.targets) == 1 and isinstance(st.targets[0], ast.Name):
-                if st.targets[0].id not in arr and is_arr(st.value):
-                    arr.add(st.targets[0].id)
-                    changed = True
-            elif isinstance(st, ast.For) and isinstance(st.target, ast.Name):
-                pass
-    return arr, is_arr
+from .arrays import ARRAY_CTORS, REDUCTIONS, array_names, _funcname  # noqa: E402
 
 
 class DivAnalysis:
